@@ -11,7 +11,7 @@ CONSTANTS
   Ts = {"tx", "err"}
   MaxId = 1
   MaxTx = 2
-  MaxRounds = 2
+  MaxRounds = 1
   Signers = {1, 2}
 INIT InitMC
 NEXT NextMC
